@@ -468,6 +468,105 @@ func init() {
 		Bounds: func(tier string) map[string]interface{} { return map[string]interface{}{} },
 		Covers: []string{"samples read back"}, RequireCovers: true,
 	}
+	propDefs["C12"] = &PropDef{
+		ID:       "C12",
+		Patterns: []string{"./mp4"},
+		InitPkgs: []string{mod + "/mp4"},
+		Instances: func(tier string, L *Loaded) []*HarnessCfg {
+			var r []*HarnessCfg
+			p := mod + "/mp4"
+			layouts := []string{"S", "Sf", "SS", "SfS", "N", "NN", "SE", "SM", "SSM"}
+			if tier == "thorough" {
+				layouts = append(layouts, "SSS", "SffS", "SfSf", "NNN", "SSSM", "SES")
+			}
+			for _, lay := range layouts {
+				hasStyp := lay[0] == 'S'
+				mfra := lay[len(lay)-1] == 'M'
+				for _, srp := range []string{"false", "true"} {
+					r = append(r, inst(p, "VerifC12Grouping", lay, "0", srp))
+					if !hasStyp {
+						r = append(r, inst(p, "VerifC12Grouping", lay, "2", srp))
+					}
+				}
+				if mfra {
+					r = append(r, inst(p, "VerifC12Grouping", lay, "1", "false"))
+				}
+				for _, add := range []string{"false", "true"} {
+					for _, ept := range []string{"false", "true"} {
+						r = append(r, inst(p, "VerifC12Sidx", lay, add, ept, "false"))
+						if !mfra && (tier == "thorough" || add == ept) {
+							r = append(r, inst(p, "VerifC12Sidx", lay, add, ept, "true"))
+						}
+					}
+				}
+			}
+			for _, c := range r {
+				c.MaxWallS = tierW(tier, 60, 600)
+			}
+			return r
+		},
+		Bounds: func(tier string) map[string]interface{} { return map[string]interface{}{} },
+		Covers: []string{"grouping done", "sidx done"}, RequireCovers: true,
+	}
+	propDefs["C08"] = &PropDef{
+		ID:       "C08",
+		Patterns: []string{"./mp4"},
+		InitPkgs: []string{mod + "/mp4"},
+		Instances: func(tier string, L *Loaded) []*HarnessCfg {
+			var r []*HarnessCfg
+			p := mod + "/mp4"
+			layouts := []string{"1", "12", "1,2", "12,1", "2;1", "11,2;21"}
+			if tier == "thorough" {
+				layouts = append(layouts, "123", "1,1,1", "21,12;1,2", "3;12,1;2")
+			}
+			for li, lay := range layouts {
+				for v := 0; v < 8; v++ {
+					if tier != "thorough" && (v+li)%2 == 1 {
+						continue
+					}
+					for _, work := range []int{0, 1, 2, 5} {
+						if tier != "thorough" && work == 5 && li%2 == 0 {
+							continue
+						}
+						b := func(x int) string {
+							if x != 0 {
+								return "true"
+							}
+							return "false"
+						}
+						c := inst(p, "VerifC08", lay, b(v&1), b(v&2), b(v&4), itoa(work))
+						c.MaxWallS = tierW(tier, 60, 600)
+						r = append(r, c)
+					}
+				}
+			}
+			return r
+		},
+		Bounds: func(tier string) map[string]interface{} { return map[string]interface{}{} },
+		Covers: []string{"lazy compared"}, RequireCovers: true,
+	}
+	propDefs["C19"] = &PropDef{
+		ID:       "C19",
+		Patterns: []string{"./mp4"},
+		InitPkgs: []string{mod + "/mp4", mod + "/aac", mod + "/avc", mod + "/hevc"},
+		Instances: func(tier string, L *Loaded) []*HarnessCfg {
+			var r []*HarnessCfg
+			p := mod + "/mp4"
+			specs := [][2]string{{"vA", "3"}, {"vH", "2"}, {"aC", "5"}, {"a3", "3"}, {"aE", "3"}, {"tW", "2"}, {"sS", "5"},
+				{"vAaC", "33"}, {"aCvA", "25"}, {"vAaCsS", "352"}}
+			if tier == "thorough" {
+				specs = append(specs, [2]string{"vHaEtW", "523"}, [2]string{"aCaCaC", "333"}, [2]string{"vAvH", "22"}, [2]string{"sSa3vA", "235"})
+			}
+			for _, sp := range specs {
+				c := inst(p, "VerifC19", sp[0], sp[1])
+				c.MaxWallS = tierW(tier, 120, 900)
+				r = append(r, c)
+			}
+			return r
+		},
+		Bounds: func(tier string) map[string]interface{} { return map[string]interface{}{} },
+		Covers: []string{"init built"}, RequireCovers: true,
+	}
 	propDefs["C13"] = &PropDef{
 		ID:       "C13",
 		Patterns: []string{"./bits"},
